@@ -583,6 +583,9 @@ def run(ck, prog, ctx):
             positive = (("is_ok" in pos_calls or "contains" in pos_calls or "is_some" in pos_calls) and not nots) or (("is_err" in pos_calls or "is_none" in pos_calls) and len(nots) == 1)
             ck.ob("DOM", "contains/polarity", positive, "HpoGroup::contains returns %s" % ("true iff the search finds the id" if positive else "a negated / inverted search result"), where=con.where())
             key = params_of(pvn.of_local(con, 0), con.id)
+            if key != {1, 2}:
+                # (the search may sit in a private helper `contains` delegates to: the inlining provenance sees through it)
+                key = params_of(pv.of_local(con, 0), con.id)
             ck.ob("DOM", "contains/operands", key == {1, 2}, "contains searches `self.ids` for the `id` argument", where=con.where())
 
     # ------------------------------------------------------------------ BitAnd
